@@ -182,6 +182,7 @@ type retInfo struct {
 
 type loopInfo struct {
 	writeRefs map[string]map[string]bool
+	writeFields map[string]map[string]map[int]bool
 	preText   string
 	measure Val
 	header  *ssa.BasicBlock
@@ -256,6 +257,7 @@ type VC struct {
 	needDecVal  bool
 	globalInits []globalInit
 	needDigits  bool
+	digitTheory bool
 	needBytes   bool
 	frameOn     bool
 	topEntry    Term
@@ -265,6 +267,12 @@ type VC struct {
 	curState    *State
 	writtenRefs map[string]map[string]bool
 	pendingRef  string
+	// field-level write tracking for loops: comp -> ref -> set of struct field indexes written (-1: the whole
+	// object or something that is not a field of the object's struct); compStruct: the struct type of a component
+	pendingField  int
+	pendingCont   types.Type
+	writtenFields map[string]map[string]map[int]bool
+	compStruct    map[string]types.Type
 	opaqueDefs  map[string]string
 	scriptHeader string
 	flagValues  map[string]bool
@@ -462,6 +470,28 @@ func (vc *VC) noteWriteRef(comp, ref string) {
 		vc.writtenRefs[comp] = map[string]bool{}
 	}
 	vc.writtenRefs[comp][ref] = true
+	f := -1
+	if vc.pendingCont != nil {
+		f = vc.pendingField
+		if vc.compStruct == nil {
+			vc.compStruct = map[string]types.Type{}
+		}
+		vc.compStruct[comp] = vc.pendingCont
+	}
+	vc.noteWriteField(comp, ref, f)
+}
+
+func (vc *VC) noteWriteField(comp, ref string, f int) {
+	if vc.writtenFields == nil {
+		vc.writtenFields = map[string]map[string]map[int]bool{}
+	}
+	if vc.writtenFields[comp] == nil {
+		vc.writtenFields[comp] = map[string]map[int]bool{}
+	}
+	if vc.writtenFields[comp][ref] == nil {
+		vc.writtenFields[comp][ref] = map[int]bool{}
+	}
+	vc.writtenFields[comp][ref][f] = true
 }
 
 // registerComp declares the value sort of a heap component.
@@ -619,7 +649,13 @@ func (vc *VC) storePlace(st *State, p *Place, v Term) {
 		return
 	}
 	root := vc.rootTerm(st, p)
+	if p.Kind == BPtr && !p.Path[0].IsIndex && p.Path[0].Cont != nil {
+		if _, ok := p.Path[0].Cont.Underlying().(*types.Struct); ok && !isBigInt(p.Path[0].Cont) && !isBigRat(p.Path[0].Cont) && !isBigFloat(p.Path[0].Cont) {
+			vc.pendingField, vc.pendingCont = p.Path[0].Field, p.Path[0].Cont
+		}
+	}
 	vc.setRoot(st, p, vc.update(root, p.Path, v))
+	vc.pendingCont = nil
 }
 
 // litValue recognises literal index terms produced by idxLit / bvLit / intLit.
@@ -983,6 +1019,12 @@ func refBase(t string) (string, int) {
 // application would pull the query out of pure arithmetic and slow every solver down; congruence between
 // different terms for equal strings is not needed and not provided).
 func (vc *VC) decVal(t Term, which string) Term {
+	if vc.digitTheory {
+		if which == "valid" {
+			return mk("(dvalid "+t.S+")", sortBool)
+		}
+		return mk("(dv "+t.S+")", sortReal)
+	}
 	key := which + "!" + t.S
 	if c, ok := vc.decConsts[key]; ok {
 		return c
